@@ -179,7 +179,7 @@ def run_check(tier, seed):
         for r in recs[1:]:
             shapes.add((c['mode'][0], c['no_open'], c['no_opendir'], r['op'], r['res'] in (0,), r['res'] in (EBADF, ENOSYS)))
         bad = predicate(c, recs)
-        led, final_led = c08.ledger_run(recs)
+        led, final_led = c08.ledger_run(recs, c['mode'][0])
         cands = [x for x in (bad, led) if x]
         if cands:
             k, label, detail = min(cands, key=lambda x: x[0])
